@@ -702,6 +702,7 @@ func Gen(run *vlib.Run, seed uint64, tier string) {
 
 	// (5b) nested contextual calls inside one root rule, with inlined twins
 	genDeep(run, root.Fork("deep"), tier)
+	genOverrun(run, tier)
 
 	// (6) tables that went through Encode / (mutation) / gtab.Read
 	genRead(run, root.Fork("read"), tier)
